@@ -216,6 +216,20 @@ def check_tokens(acc, pendulum, z, f, loc, pairs=False):
                     kf = "C08-naive-timestamp-token" if (z is None and ("X" in (a, b) or "x" in (a, b)) and got[0] == "raises"
                                                          and got[1].startswith("TypeError")) else None
                     acc.mismatch("token-pair", "pair", dict(case, fmt=fmt), got, want, kf=kf)
+    # the process-wide default locale (set_locale) must give what the explicit locale= argument gives
+    if loc != "en":
+        pendulum.set_locale(loc)
+        try:
+            for tok in ("MMMM", "dddd", "Do", "LLLL", "A"):
+                acc.c["evaluations"] += 1
+                try:
+                    got = ("ok", x.format(tok))
+                except Exception as e:  # noqa: BLE001
+                    got = ("raises", type(e).__name__)
+                if got != ("ok", singles[tok]):
+                    acc.mismatch("token", f"{tok}/global-locale", dict(case, tok=tok), got, singles[tok])
+        finally:
+            pendulum.set_locale("en")
     # literals and escapes
     for fmt, want in (("[Today is] dddd", "Today is " + singles["dddd"]), ("YYYY [YYYY] MM", f"{singles['YYYY']} YYYY {singles['MM']}"),
                       ("HH\\hmm", singles["HH"] + "h" + singles["mm"]), ("[at] h A", "at " + singles["h"] + " " + singles["A"]),
